@@ -56,6 +56,8 @@ def bsrc(e):
         return "1" + "0" * e["n"]
     if k == "s":
         return repr("a" * e["n"])
+    if k == "neg":
+        return "(-%s)" % bsrc(e["a"])
     if k == "pow":
         return "(%s ** %s)" % (bsrc(e["a"]), bsrc(e["b"]))
     if k == "mul":
@@ -170,7 +172,11 @@ def worker():
             state["on"] = True
             sys.setprofile(prof)
             try:
-                r = m.metabolize(c["src"], P[c.get("pathway")])
+                if c.get("pathway") == "legacy":
+                    txt = m.digest_glucose(c["src"])
+                    r = type("R", (), {"success": not txt.startswith("Metabolic Failure"), "atp": type("A", (), {"value": txt})()})()
+                else:
+                    r = m.metabolize(c["src"], P[c.get("pathway")])
             finally:
                 sys.setprofile(None)
                 state["on"] = False
@@ -314,17 +320,23 @@ def run(tier):
             add(s, "forb", pw, spec="err" if s not in ("tool(1)", "(tool)(1)", "tool (1)") else "val", construct="ToolPathway", want={"t": "int", "v": 7})
     for c in bomb:
         s = bsrc(c["ast"])
-        for pw in (None, "math") if c["bomb"] else (None,):
+        for pw in ((None, "math", "legacy") if c["bomb"] else (None, "legacy")):
             add(s, "bomb", pw, bomb=c["bomb"], safe=c["safe"], alo=c["alo"], ahi=c["ahi"], hi=c["hi"])
     for s in ["9**9**9**9", "9 ** 9 ** 9", "-(9**9**9)", "abs(-(2 ** 2 ** 40))", "[0] * 10 ** 10", "'ab' * 9 ** 12", "(10 ** 6) ** (10 ** 6)", "factorial(factorial(12))", "2 ** 2 ** 2 ** 2 ** 2 ** 2",
-              "sum([2 ** 10 ** 9])", "max(9 ** 9 ** 9, 1)", "1 if 9 ** 9 ** 9 else 0", "not 10 ** 10 ** 10", "10 ** 10 ** 10 > 1", "len('a' * 10 ** 12)", "'a' * 10 ** 6 * 10 ** 6", "int('9' * 9000) ** 9000"]:
-        add(s, "bomb", None, bomb=True, safe=False, alo=0, ahi=0, hi=10 ** 9)
+              "10**2200*10**2200", "2 ** 16000", "int('9' * 4000) + 1", "sum([2 ** 10 ** 9])", "max(9 ** 9 ** 9, 1)", "1 if 9 ** 9 ** 9 else 0", "not 10 ** 10 ** 10", "10 ** 10 ** 10 > 1", "len('a' * 10 ** 12)", "'a' * 10 ** 6 * 10 ** 6", "int('9' * 9000) ** 9000"]:
+        add(s, "bomb", None, bomb=False, safe=False, alo=0, ahi=0, hi=10 ** 9)
+        add(s, "bomb", "legacy", bomb=False, safe=False, alo=0, ahi=0, hi=10 ** 9)
     for s in fuzz_strings(rng, 600 if quick else 20000):
         add(s, "fuzz", rng.choice([None, None, "math", "logic", "tool", "data"]))
     # spec self-check of the size model on the computable part of the family (a wrong bound would be a false alarm of the specification)
     for c in bomb:
         if c["hi"] <= 30000000:
-            v = eval(bsrc(c["ast"]), {"__builtins__": {}}, {"factorial": math.factorial})
+            try:
+                v = eval(bsrc(c["ast"]), {"__builtins__": {}}, {"factorial": math.factorial})
+            except Exception:
+                continue
+            if isinstance(v, float):
+                continue
             size = len(v) if isinstance(v, str) else v.bit_length()
             if not (c["alo"] <= max(size, 1) and size <= max(c["ahi"], 1)):
                 raise base.MachineryError("EvalSem.tla size model is wrong for %s: size %d not in [%d, %d]" % (bsrc(c["ast"]), size, c["alo"], c["ahi"]))
